@@ -10,8 +10,12 @@ import (
 	"verif/engines/codec"
 	"verif/engines/limits"
 	"verif/engines/mount"
+	"verif/engines/proto"
+	"verif/engines/robust"
 	"verif/engines/route"
+	"verif/engines/stream"
 	"verif/engines/stress"
+	"verif/engines/transcode"
 	"verif/internal/mon"
 )
 
@@ -25,9 +29,16 @@ type entry struct {
 var registry = map[string]entry{
 	"C01": {"route", "exploration", route.RunC01, route.Replay},
 	"C02": {"route", "exploration", route.RunC02, route.Replay},
+	"C03": {"transcode", "exploration", transcode.RunC03, transcode.Replay},
+	"C04": {"transcode", "exploration", transcode.RunC04, transcode.Replay},
+	"C05": {"proto", "exploration", proto.RunC05, proto.Replay},
+	"C06": {"stream", "fault_enumeration", stream.RunC06, stream.Replay},
+	"C07": {"transcode", "exploration", transcode.RunC07, transcode.Replay},
 	"C08": {"limits", "exploration", limits.RunC08, limits.Replay},
+	"C09": {"robust", "exploration", robust.RunC09, robust.Replay},
 	"C12": {"stress", "exploration", stress.RunC12, nil},
 	"C13": {"stress", "exploration", stress.RunC13, nil},
+	"C14": {"proto", "exploration", proto.RunC14, proto.Replay},
 	"C15": {"calls", "fault_enumeration", calls.RunC15, calls.Replay},
 	"C16": {"route", "exploration", route.RunC16, route.ReplayC16},
 	"C17": {"codec", "exploration", codec.Run, codec.Replay},
